@@ -92,8 +92,30 @@ func coalesceEngine() *core.Engine[QPlan] {
 	}
 }
 
+func pipelineEngine(prop string) *core.Engine[PPlan] {
+	return &core.Engine[PPlan]{
+		Property:        prop,
+		Name:            "pipeline",
+		Gen:             GenPPlan,
+		Valid:           func(p *PPlan) bool { return p.Valid() },
+		Exec:            ExecPPlan(prop),
+		ProbeNames:      pProbeNames,
+		FaultNames:      pFaultNames,
+		RaceIsViolation: true,
+		NontrivialRule:  "pipeline runs are non-trivial when the kernel emitted >= 3 records and >= 2 events reached the Stream",
+		Components: map[string][]string{
+			"real": {"NetlinkClient.Receive + AuditClient.Receive over the verif socket seam", "Reassembler (Push, Maintain, Close)", "auparse.Parse", "aucoalesce.CoalesceMessages"},
+			"stub": {"kernel record stream (SimKernel queue with loss/duplication/reordering, emission times)", "socket system calls (SimSocket)", "scheduling and clock"},
+		},
+	}
+}
+
 // Dispatch runs the worker for the property named in the configuration.
 func Dispatch(t *testing.T, cfg core.Config) {
+	if os.Getenv("VERIF_ENGINE") == "pipeline" {
+		core.RunWorker(t, cfg, pipelineEngine(cfg.Property))
+		return
+	}
 	switch cfg.Property {
 	case "C01":
 		core.RunWorker(t, cfg, reasmSeqEngine("C01", 0))
@@ -126,7 +148,8 @@ func Dispatch(t *testing.T, cfg core.Config) {
 func init() {
 	// the probe / fault tables must match the counters the engines fill in
 	if len(kProbeNames) != nKProbes || len(kFaultNames) != nKFaults || len(rProbeNames) != nRProbes || len(rFaultNames) != nRFaults ||
-		len(cProbeNames) != nCProbes || len(cFaultNames) != nCFaults || len(qProbeNames) != nQProbes {
+		len(cProbeNames) != nCProbes || len(cFaultNames) != nCFaults || len(qProbeNames) != nQProbes ||
+		len(pProbeNames) != nPProbes || len(pFaultNames) != nPFaults {
 		panic("probe/fault name tables out of sync")
 	}
 }
